@@ -116,7 +116,7 @@ class StlAstParserVisitor(LtlAstParserVisitor, StlParserVisitor):
 
         val = self.const_val_dict[const_name]
 
-        out = Fraction(Decimal(val))
+        out = self.literal_to_fraction(val)
 
         if ctx.unit() is None:
             unit = ''
@@ -126,8 +126,15 @@ class StlAstParserVisitor(LtlAstParserVisitor, StlParserVisitor):
         return out, unit
 
 
+    def literal_to_fraction(self, text):
+        try:
+            return Fraction(Decimal(text))
+        except ArithmeticError:
+            # hexadecimal and binary integer literals of the grammar
+            return Fraction(int(text, 0))
+
     def visitIntervalTimeLiteral(self, ctx):
-        time_bound = Fraction(Decimal(ctx.literal().getText()))
+        time_bound = self.literal_to_fraction(ctx.literal().getText())
         if ctx.unit() is None:
             unit = ''
         else:
